@@ -197,6 +197,14 @@ Theorem C12_total_verification_trailer : forall bs fuel, len bs < Z.of_nat fuel 
 Proof. exact verification_trailer_unpack_total. Qed.
 Print Assumptions C12_total_verification_trailer.
 
+(* the instance the property text names: fuel = length + 1, every octet string, all four top-level decoders *)
+Theorem C12_total_len1 : forall bs : bytes,
+  pdu_unpack (S (length bs)) bs <> Raise OutOfFuel /\ verification_trailer_unpack (S (length bs)) bs <> Raise OutOfFuel
+  /\ ept_map_unpack (S (length bs)) bs <> Raise OutOfFuel /\ ept_map_result_unpack (S (length bs)) bs <> Raise OutOfFuel.
+Proof. exact (fun bs => conj (proj1 (pdu_unpack_total bs _ (len_lt_S bs))) (conj (proj1 (verification_trailer_unpack_total bs _ (len_lt_S bs)))
+  (conj (proj1 (ept_map_unpack_total bs _ (len_lt_S bs))) (proj1 (ept_map_result_unpack_total bs _ (len_lt_S bs)))))). Qed.
+Print Assumptions C12_total_len1.
+
 (* ---- the hypotheses are satisfiable by non-trivial messages ---- *)
 Example C12_example_bind_ack : exists m packed bsa,
   ba_sec_addr m = [52; 57; 54; 54; 56] /\ length (ba_results m) = 2%nat /\
